@@ -264,6 +264,7 @@ def run (ctx):
   _wire_symmetry(ctx, repo, lof)
   _pack_gating(ctx, repo, lof)
   _class_level_len(ctx, repo, lof)
+  _address_slots(ctx, repo, lof)
   _lazy_caches(ctx, repo, lof)
   # ---- D11 ------------------------------------------------------------------------------------------------------
   _bitfields(ctx, repo, nx)
@@ -322,8 +323,38 @@ def _vendor_hook (ctx, repo, lof, nx):
     for c in q.node_calls(node):
       if call_name(c) not in ('_unpack', 'unpack_from') or len(c.args) < 3: continue
       fmt = repo.try_const(nx, c.args[0] if call_name(c) == '_unpack' else c.args[0], None, default=None)
-      pos = q.lin_terms(c.args[2])
-      if not isinstance(fmt, str) or pos is None or pos[0] != {off: 1}: continue
+      # positions may go through local constants (`hdr_len = len(ofp_header)`)
+      alias_ = {}
+      for t_, v_, st_, k_ in q.stores_in(f.node, nested=False):
+        if isinstance(t_, ast.Name) and v_ is not None and k_ == 'assign':
+          cv_ = repo.try_const(nx, v_, None, default=None)
+          if cv_ is None and isinstance(v_, ast.Call) and call_name(v_) == 'len' and len(v_.args) == 1 and isinstance(v_.args[0], ast.Name) and v_.args[0].id == 'ofp_header': cv_ = 8
+          if isinstance(cv_, int): alias_[t_.id] = cv_
+      def class_len_ (nm_):
+        k_ = nx.lookup(nm_) or lof.lookup(nm_)
+        if not hasattr(k_, 'find_method'): return None
+        lf_ = k_.find_method('__len__')
+        if lf_ is not None and lf_.is_static:
+          rs_ = [q.try_int(r_.value) for r_ in q.returns_of(lf_.node)]
+          return rs_[0] if len(rs_) == 1 and rs_[0] is not None else None
+        c2_, v2_ = k_.find_assign('_MIN_LENGTH')
+        return repo.try_const(k_.module, v2_, k_, default=None) if v2_ is not None else None
+      class Sub_(ast.NodeTransformer):
+        def visit_Name (self, n_): return ast.copy_location(ast.Constant(value=alias_[n_.id]), n_) if n_.id in alias_ and isinstance(n_.ctx, ast.Load) else n_
+        def visit_Call (self, n_):
+          if call_name(n_) == 'len' and len(n_.args) == 1 and isinstance(n_.args[0], ast.Name) and isinstance(class_len_(n_.args[0].id), int):
+            return ast.copy_location(ast.Constant(value=class_len_(n_.args[0].id)), n_)
+          return self.generic_visit(n_)
+      import copy as copy_
+      pos = q.lin_terms(Sub_().visit(copy_.deepcopy(c.args[2])))
+      if not isinstance(fmt, str) or pos is None: continue
+      if off not in pos[0] and not pos[0]:
+        n += 1
+        ctx.bad('R-UNITS', f, "`%s` reads relative to the start of the message" % norm(c)[:50],
+                "the position `%s` does not depend on `%s`: the hook peeks at an absolute place in the receive buffer, which is this message only when it is the first one there - a Nicira message behind another message "
+                "in the same read is taken for another vendor's and decoded by the generic fallback (wrong class, not equal to what was encoded)" % (norm(c.args[2]), off), (nx, c), 'D9')
+        continue
+      if pos[0] != {off: 1}: continue
       import struct as _st
       try: end = pos[1] + _st.calcsize(fmt)
       except Exception: continue
@@ -511,11 +542,31 @@ def _registries (ctx, repo, lof, spec):
     c2s = m.value in spec['controller_to_switch']; s2c = m.value in spec['switch_to_controller']
     ctx.ob('R-REG', "%s:%s" % (lof.short, m.name), "direction per OpenFlow 1.0", (m.controller == c2s) and (m.switch == s2c),
            "controller=%s switch=%s" % (m.controller, m.switch) if (m.controller == c2s) and (m.switch == s2c) else "registered controller=%s switch=%s, spec says controller=%s switch=%s" % (m.controller, m.switch, c2s, s2c), m.cls, 'D1')
+  # list-ness as the decorators leave it: every application (request or reply, in source order) whose `is_list` - given or the
+  # factory's default - is not None overwrites the entry's flag
+  fdef = {}
+  for fn_ in ('openflow_stats_request', 'openflow_stats_reply'):
+    ff_ = lof.funcs.get(fn_)
+    if ff_ is not None:
+      a_ = ff_.node.args; names_ = [x_.arg for x_ in a_.args]; defs_ = [None] * (len(names_) - len(a_.defaults)) + list(a_.defaults)
+      d_ = dict(zip(names_, defs_)).get('is_list')
+      try: fdef[fn_] = ast.literal_eval(d_) if d_ is not None else None
+      except Exception: fdef[fn_] = '?'
+  eff = {}
+  for s in sorted(sts, key=lambda r_: getattr(r_.call, 'lineno', 0)):
+    v_ = s.is_list if any(k_.arg == 'is_list' for k_ in s.call.keywords) or len(s.call.args) > 2 else fdef.get(s.deco, None)
+    if len(s.call.args) > 2 and not any(k_.arg == 'is_list' for k_ in s.call.keywords):
+      try: v_ = ast.literal_eval(s.call.args[2])
+      except Exception: v_ = '?'
+    if v_ is not None: eff[s.name] = v_
   for s in sts:
     if s.is_reply and s.name in spec['ofp_stats_types']:
       want = s.name in spec['stats_reply_is_list']
-      have = bool(s.is_list)
-      ctx.ob('R-REG', "%s:%s" % (lof.short, s.name), "stats reply body is %s" % ('a list' if want else 'a single struct'), want == have, "is_list=%s" % s.is_list, s.cls, 'D1')
+      have = eff.get(s.name, None)
+      ctx.ob('R-REG', "%s:%s" % (lof.short, s.name), "stats reply body is %s" % ('a list' if want else 'a single struct'), have != '?' and want == bool(have),
+             "is_list=%s after all registrations" % have if want == bool(have) else
+             "after all stats registrations of %s (in source order, with the decorator factories' defaults) reply_is_list is %r, OpenFlow 1.0 says %s: a reply with %s decodes to %s" %
+             (s.name, have, want, "several entries" if want else "one struct", "a single object / fails its length assertion" if want else "a list"), s.cls, 'D1')
   # constants generated from rev_maps vs spec
   mod = lof
   n = 0
@@ -849,3 +900,37 @@ def _lazy_caches (ctx, repo, lof):
                  "`%s` replaces the field that %s packs lazily into self.%s, without `self.%s = None`: if the object has been packed (or measured) before, its length and bytes are still those of the previous value - "
                  "the header length no longer equals the byte count of what the object now holds" % (s_.text(50), filler.qual, C, C), (lof, s_.ast), 'D5')
   ctx.floor('stores to lazily packed fields', n, 1)
+
+
+def _address_slots (ctx, repo, lof):
+  """Integer slots that are filled through a conversion helper of another module: `ofp_action_nw_addr` packs IPAddr.toSigned() into a
+  signed 32-bit slot ('l').  The helper is evaluated on sample addresses - 0, 1.2.3.4, 127.255.255.255, 128.0.0.0 (the sign bit alone),
+  128.0.0.1, 255.255.255.255 - and has to give the two's-complement reading of the host-order value, which always fits the slot."""
+  import socket as so_, struct as st_
+  am = repo.mod('lib.addresses'); ip = am.classes.get('IPAddr')
+  users = [c_ for k_ in lof.classes.values() for f_ in k_.methods.values() if f_.name == 'pack' for c_ in calls_in(f_.node) if call_name(c_) in ('toSigned', 'toSignedN')]
+  if ip is None or not users: return
+  n = 0
+  for name, net in (('toSigned', False),):
+    f = ip.methods.get(name)
+    if f is None: continue
+    ctx.analysed(f); g = q.cfg_of(f)
+    bad = []; und = 0
+    for host in (0, 0x01020304, 0x7fffffff, 0x80000000, 0x80000001, 0xffffffff):
+      stored = so_.ntohl(host)                      # IPAddr keeps the address in network order
+      want = host - (1 << 32) if host >= (1 << 31) else host
+      del q.RAISED[:]
+      outs = set()
+      for p_, e_ in q.paths_under(repo, am, g, q.Env({'self._value': stored, (f.params[1] if len(f.params) > 1 else 'networkOrder'): net}), g.entry, [n_ for n_ in g.nodes if n_.kind == 'return'], ip, limit=20):
+        try: outs.add(q.eval_env2(repo, am, p_[-1].ast.value, e_, ip))
+        except Exception: outs.add('?')
+      n += 1
+      if q.RAISED: bad.append((host, "raises %s" % q.RAISED[0][1])); continue
+      if not outs or '?' in outs: und += 1; continue
+      if outs != {want}: bad.append((host, "gives %s, expected %d" % (sorted(outs), want)))
+    if und and not bad:
+      ctx.undecided('R-AGREE', f, "the address conversion packed into a signed slot is the two's-complement reading (6 sample addresses)", "%d samples not evaluable" % und, f, 'D4')
+    else:
+      ctx.ob('R-AGREE', f, "the address conversion packed into a signed slot is the two's-complement reading (6 sample addresses)", not bad, "0, 1.2.3.4, 127.255.255.255, 128.0.0.0, 128.0.0.1, 255.255.255.255" if not bad else
+             "IPAddr.%s() for host-order value 0x%08x %s; %s packs it with a signed 32-bit code: that address cannot be encoded (struct.error) or encodes as another address" % (name, bad[0][0], bad[0][1], users[0].__class__.__name__ and 'ofp_action_nw_addr.pack'), f, 'D4')
+  ctx.floor('address conversion samples', n, 6)
